@@ -26,6 +26,13 @@ pub static WORKER_ENTROPY: AtomicU64 = AtomicU64::new(0);
 /// Simulated clock (seconds, nanoseconds) seen by workers.
 pub static SIM_CLOCK_S: AtomicI64 = AtomicI64::new(1_700_000_000);
 pub static SIM_CLOCK_NS: AtomicI64 = AtomicI64::new(0);
+/// How far the simulated clock moves on every read by a worker (0 = frozen). Time passes *during*
+/// an expansion in some worlds and stands still in others, so code that measures elapsed time sees
+/// different durations.
+pub static SIM_CLOCK_STEP_NS: AtomicI64 = AtomicI64::new(0);
+/// What `isatty` answers to workers: 0 = real, 1 = no, 2 = yes.
+pub static SIM_ISATTY: AtomicU64 = AtomicU64::new(0);
+pub static TTY_READS_WORKER: AtomicU64 = AtomicU64::new(0);
 /// Simulated pid seen by workers.
 pub static SIM_PID: AtomicI64 = AtomicI64::new(4242);
 
@@ -136,6 +143,13 @@ pub unsafe extern "C" fn clock_gettime(clk: i32, ts: *mut Timespec) -> i32 {
             (*ts).tv_sec = SIM_CLOCK_S.load(Ordering::SeqCst);
             (*ts).tv_nsec = SIM_CLOCK_NS.load(Ordering::SeqCst);
         }
+        // time passes between two reads (only one worker runs at a time: no race)
+        let step = SIM_CLOCK_STEP_NS.load(Ordering::SeqCst);
+        if step != 0 {
+            let ns = SIM_CLOCK_NS.load(Ordering::SeqCst) + step;
+            SIM_CLOCK_S.fetch_add(ns.div_euclid(1_000_000_000), Ordering::SeqCst);
+            SIM_CLOCK_NS.store(ns.rem_euclid(1_000_000_000), Ordering::SeqCst);
+        }
         0
     } else {
         syscall(SYS_CLOCK_GETTIME, clk as i64, ts) as i32
@@ -226,6 +240,27 @@ pub unsafe extern "C" fn open64(path: *const u8, flags: i32, mode: u32) -> i32 {
 #[no_mangle]
 pub unsafe extern "C" fn open(path: *const u8, flags: i32, mode: u32) -> i32 {
     open64(path, flags, mode)
+}
+
+/// Is this file descriptor a terminal? (`std::io::IsTerminal`: coloured or abbreviated diagnostics.)
+#[no_mangle]
+pub unsafe extern "C" fn isatty(fd: i32) -> i32 {
+    const SYS_IOCTL: i64 = 16;
+    const TCGETS: i64 = 0x5401;
+    if is_worker() {
+        TTY_READS_WORKER.fetch_add(1, Ordering::SeqCst);
+        match SIM_ISATTY.load(Ordering::SeqCst) {
+            1 => return 0,
+            2 => return 1,
+            _ => {},
+        }
+    }
+    let mut termios = [0u8; 64];
+    if syscall(SYS_IOCTL, fd as i64, TCGETS, termios.as_mut_ptr()) == 0 {
+        1
+    } else {
+        0
+    }
 }
 
 /// CPU affinity mask (`std::thread::available_parallelism`). Workers see the simulated count.
